@@ -118,7 +118,7 @@ def parse_unit(path):
                 opts[k] = v
             u.seq.append(("item", src, kind, nm, opts))
         elif d == "@fns":
-            head, _, names = rest.partition(":")
+            head, _, names = rest.rpartition(" : ")
             src, header = head.strip().split(None, 1)
             u.seq.append(("fns", src, header.strip(), names.split()))
         elif d == "@index":
